@@ -263,7 +263,45 @@ def scenarios():
     ok = t.s1[0] is H.g4 and isinstance(t.s1[1], fdl.Partial) and t.s2['k1'] is H.ClsA
     b = pool.inst_of(fdl.build(t)).args
     return (ok and b['s1'][0] is H.g4 and b['s1'][1].keywords == {'s1': 2}) or f'{t}'
-  for name, fn in [('posonly-default', s_posonly_default),
+  def s_shared_value_equal_to_default():
+    def node(a=[], b=None, c=None):  # pylint: disable=dangerous-default-value
+      return (a, b, c)
+    shared = []
+    outs = []
+    for cfg in (fdl.Config(node, a=shared, b=shared),
+                fdl.Config(node, a=shared, c=[shared, 1]),
+                fdl.Config(H.f1, s1=fdl.Config(node, a=shared), s2=shared)):
+      b0 = fdl.build(cfg)
+      for deep in (False, True):
+        t = visualize.with_defaults_trimmed(cfg, remove_deep_defaults=deep)
+        b1 = fdl.build(t)
+        def alias(b):
+          if isinstance(b, tuple):
+            return (b[0] is b[1], isinstance(b[2], list) and b[2] and b[2][0] is b[0])
+          a = pool.inst_of(b).args
+          return (a['s1'][0] is a['s2'],)
+        if alias(b0) != alias(b1) or not (t == cfg):
+          outs.append((deep, alias(b0), alias(b1), t == cfg))
+    return (not outs) or f'trimming changed aliasing / equality: {outs}'
+  def s_posonly_gap_default():
+    def f(a, b=2, c=3, /, d=4):
+      return (a, b, c, d)
+    cfg = fdl.Config(f, 10)
+    c2 = copy.deepcopy(cfg)
+    materialize.materialize_defaults(c2)
+    return (fdl.build(c2) == fdl.build(cfg) == (10, 2, 3, 4) and c2 == cfg and c2[:] == [10, 2, 3, 4]
+            ) or f'{c2.__arguments__} builds {fdl.build(c2)}'
+  def s_tagged_shared_value():
+    shared = fdl.Config(H.g4, s1=1)
+    cfg = fdl.Config(H.f1, s1=[H.T1.new(shared)], s2=shared)
+    m = tagging.materialize_tags(cfg)
+    b0, b1 = pool.inst_of(fdl.build(cfg)).args, pool.inst_of(fdl.build(m)).args
+    return ((b0['s1'][0] is b0['s2']) == (b1['s1'][0] is b1['s2']) and m.s1[0] is m.s2
+            ) or 'materialize_tags lost the sharing of a tagged value'
+  for name, fn in [('shared-value-equal-to-mutable-default', s_shared_value_equal_to_default),
+                   ('posonly-default-after-required', s_posonly_gap_default),
+                   ('tagged-shared-value', s_tagged_shared_value),
+                   ('posonly-default', s_posonly_default),
                    ('mutable-shared-default', s_mutable_shared_default),
                    ('dataclass-default-factory', s_dataclass_default_factory),
                    ('convert_dataclasses_to_configs', s_convert_dataclasses),
@@ -271,7 +309,7 @@ def scenarios():
                    ('unset-tagged-in-container', s_unset_tagged_in_container),
                    ('partials-in-containers', s_partial_in_containers)]:
     probe(name, fn)
-  return out, 7
+  return out, 10
 
 
 def main():
